@@ -14,7 +14,7 @@ FUNCTIONS_ENCODED = ["validate_message_avps", "Node._receive_message", "Node._re
                      "Node._generate_answer", "Node.send_message", "Application.receive_request", "Message.from_bytes / typed __post_init__ (requests are decoded from bytes)"]
 ASSUMPTIONS = ["when several rejection reasons apply at once the property does not order them: any applicable code is accepted",
                "an 'unknown' peer on a ready connection is constructed directly (over-approximation; a CER from an unknown peer is refused with 3010)"]
-BOUNDS = {"quick": "missing AVPs: every typed request class x every set of <= 2 removed required attributes (good route); routing: CCR/ACR x application id {registered, other registered, unregistered} x realm {own, additional, foreign} x sender {configured, configured for the other app, known unconfigured, unknown} x 3 node configurations x handler raises or not; base-protocol requests never reach an application",
+BOUNDS = {"quick": "missing AVPs: every typed request class x every set of <= 2 removed required attributes (good route); routing: CCR/ACR x application id {registered, other registered, unregistered} x realm {own, additional, foreign} x sender {configured, configured for the other app, known unconfigured, unknown} x 4 node configurations x handler raises or not; base-protocol requests never reach an application",
           "thorough": "same with sets of <= 3 removed attributes"}
 OUTSIDE = ["3 registered applications", "interleaving with base-protocol traffic beyond one preceding DWR"]
 
@@ -76,8 +76,10 @@ def _bench(cfg):
         b = B.Bench(n_peers=3, apps=((4, "auth"),), app_peers=[[0]], realms=["extra.realm"])
     elif cfg == 1:
         b = B.Bench(n_peers=3, apps=((4, "auth"), (4, "auth")), app_peers=[[0], [1]], realms=["extra.realm"])
-    else:
+    elif cfg == 2:
         b = B.Bench(n_peers=3, apps=((4, "auth"), (3, "acct")), app_peers=[[0], [0, 1]], realms=None)
+    else:
+        b = B.Bench(n_peers=3, apps=((4, "auth"),), app_peers=[[0, 1]], realms=["extra.realm"])
     return b
 
 
@@ -99,7 +101,8 @@ def _ref_route(b, cfg, sender, app_id, realm):
     """reference from the property text: (outcome, app index)"""
     n = b.node
     served = {}
-    cfgs = {0: [(0, [0], ["extra.realm"])], 1: [(0, [0], ["extra.realm"]), (1, [1], ["extra.realm"])], 2: [(0, [0], []), (1, [0, 1], [])]}[cfg]
+    cfgs = {0: [(0, [0], ["extra.realm"])], 1: [(0, [0], ["extra.realm"]), (1, [1], ["extra.realm"])], 2: [(0, [0], []), (1, [0, 1], [])],
+            3: [(0, [0, 1], ["extra.realm"])]}[cfg]
     for (ai, pidx, extra) in cfgs:
         for pi in pidx:
             for r in [B.REALM] + extra:
@@ -244,7 +247,7 @@ def specs(tier, seed, carve):
         n_ = len(required_scalar_rows(C03.CLASSES[name]))
         out.append(dict(id="missing_avps/" + name[2:], fn="missing_avps", params={"cls": name, "nreq": n_, "three": not q}, timeout=600 if q else 2400,
                         bound="%s: every set of <= %d of its %d required attributes removed (request decoded from bytes, preceded by a DWR)" % (name[2:], 2 if q else 3, n_)))
-    for cfg in (0, 1, 2):
+    for cfg in (0, 1, 2, 3):
         for cmd in ("ccr", "acr"):
             out.append(dict(id="routing/cfg%d/%s" % (cfg, cmd), fn="routing", params={"cfg": cfg, "cmd": cmd}, timeout=900,
                             bound="node configuration %d, %s: application id {4, 3, 9} x realm {own, additional, foreign} x sender {peer1, peer2, peer3 (unconfigured), unknown} x handler raises" % (cfg, cmd)))
